@@ -23,7 +23,7 @@ import (
 )
 
 func TestMain(m *testing.M) {
-	vstat.Rule("Frozen clock; breaker with generated fallback/recovery/check durations (whole-ms grid) and an error-ratio condition; the protected handler is a gate so requests can be in flight across the trip. Steps: advance(d) (d = whole ms + 1us, sized relative to check period, fallback and recovery durations), start, finish(k,status) in any order, failing bursts. Oracle from observation only: a trip instant T is known when String() turns to tripped at a quiescent point; every request arriving at a with T <= a < T+fallback must be answered by the fallback and must not reach the handler, whatever is in flight and however it completes; while the state reads standby every arriving request reaches the handler; observed state changes follow standby->tripped->recovering->{standby,tripped}. Non-trivial: a trip with >= 1 request in flight across it and >= 1 arrival inside the fallback interval at an offset other than 0. Later additions: requests may carry Connection: Upgrade, an already cancelled or expired context; Wrap(same handler) is called at arbitrary points (state must not move); loggers that format their arguments; side effects that hang until the case ends.")
+	vstat.Rule("Frozen clock; breaker with generated fallback/recovery/check durations (whole-ms grid) and an error-ratio condition; the protected handler is a gate so requests can be in flight across the trip. Steps: advance(d) (d = whole ms + 1us, sized relative to check period, fallback and recovery durations), start, finish(k,status) in any order, failing bursts. Oracle from observation only: a trip instant T is known when String() turns to tripped at a quiescent point; every request arriving at a with T <= a < T+fallback must be answered by the fallback and must not reach the handler, whatever is in flight and however it completes; while the state reads standby every arriving request reaches the handler; observed state changes follow standby->tripped->recovering->{standby,tripped}. Non-trivial: a trip with >= 1 request in flight across it and >= 1 arrival inside the fallback interval at an offset other than 0. Later additions: requests may carry Connection: Upgrade, an already cancelled or expired context; Wrap(same handler) is called at arbitrary points (state must not move); loggers that format their arguments; side effects that hang until the case ends; another fallback handler installed between requests through Fallback() (state must not move, refused requests are answered by the handler in force).")
 	vstat.Main(m.Run)
 }
 
@@ -158,13 +158,27 @@ func TestC05_Shield(t *testing.T) {
 			observe("finish")
 		}
 		n := rapid.IntRange(3, 60).Draw(t, "nsteps")
+		swapped, swappedAt, fallbacksAt := false, 0, 0
 		for i := 0; i < n; i++ {
-			if rapid.IntRange(0, 14).Draw(t, "rewrap") == 0 {
+			switch rapid.IntRange(0, 14).Draw(t, "rewrap") {
+			case 0:
 				// the chain is rebuilt around the same handler: the breaker's state is untouched
 				d.Rewrap()
 				if st := d.State(); st != prev {
 					t.Fatalf("Wrap() moved the breaker from %s to %s at +%v\n%s", prev, st, d.Now, d.History())
 				}
+			case 1:
+				// another fallback handler is installed between two requests: the state is untouched and
+				// from now on every refused request is answered by the new one
+				d.SwapFallback()
+				swappedAt, fallbacksAt = d.Swapped, d.Fallbacks
+				swapped = true
+				if st := d.State(); st != prev {
+					t.Fatalf("Fallback() moved the breaker from %s to %s at +%v\n%s", prev, st, d.Now, d.History())
+				}
+			}
+			if swapped && d.Swapped-swappedAt != d.Fallbacks-fallbacksAt {
+				t.Fatalf("since another fallback handler was installed %d requests were refused but only %d of them were answered by the new handler\n%s", d.Fallbacks-fallbacksAt, d.Swapped-swappedAt, d.History())
 			}
 			switch rapid.IntRange(0, 9).Draw(t, "op") {
 			case 0, 1:
@@ -225,6 +239,9 @@ func TestC05_Shield(t *testing.T) {
 				observe("advance")
 			}
 		}
+		if swapped && d.Swapped-swappedAt != d.Fallbacks-fallbacksAt {
+			t.Fatalf("since another fallback handler was installed %d requests were refused but only %d of them were answered by the new handler\n%s", d.Fallbacks-fallbacksAt, d.Swapped-swappedAt, d.History())
+		}
 		if got := d.OnTripped.N.Load(); got != trips {
 			t.Fatalf("observed %d trips, on-tripped effect ran %d times\n%s", trips, got, d.History())
 		}
@@ -241,6 +258,9 @@ func TestC05_Shield(t *testing.T) {
 		}
 		if arrivalsInShield > 0 {
 			cl = append(cl, "arrival-inside-fallback-interval")
+		}
+		if swapped && d.Swapped > 0 {
+			cl = append(cl, "refused-request-answered-by-a-fallback-installed-later")
 		}
 		vstat.Case(fmt.Sprintf("%v|%v|%v|%s|%v|%v", F, R, P, expr, phase, d.Log), nt, cl, map[string]any{"fallback": F.String(), "recovery": R.String(), "check": P.String(), "condition": expr, "steps": d.Log})
 	})
